@@ -1630,7 +1630,15 @@ class Interp:
             meth = strip_generics(rest)
             shead = type_head(selft)
             if trait is None:
-                # <Type>::method  inherent
+                # <Type>::method  inherent;  rustc prints `<impl modType>` (sic) for impls outside the defining module
+                if selft.startswith('impl '):
+                    st = selft[5:].strip()
+                    best = None
+                    for (head, m2) in self.inherent:
+                        if m2 == meth and st.endswith(head) and (best is None or len(head) > len(best)):
+                            best = head
+                    if best:
+                        shead = best
                 cands = self.inherent.get((shead, meth))
                 if cands:
                     return ('mir', cands[0])
@@ -1655,9 +1663,15 @@ class Interp:
                 return ('mir', n)
             raise Unmodelled('callee ' + callee)
         # plain path:  a::b::Type::method / core::str::<impl str>::len / free function
-        norm = re.sub(r'<impl ([^>]*(?:<[^>]*>)?[^>]*)>', lambda mm: 'IMPL[' + type_head(mm.group(1)) + ']', sg)
+        norm = sg
+        while True:
+            k = norm.find('<impl ')
+            if k < 0:
+                break
+            j = find_matching(norm, k)
+            norm = norm[:k] + 'IMPL{' + type_head(norm[k + 6:j]).replace('::', '.') + '}' + norm[j + 1:]
         segs = norm.split('::')
-        segs = [re.sub(r'^IMPL\[(.*)\]$', r'\1', s) for s in segs]
+        segs = [re.sub(r'^IMPL\{(.*)\}$', r'\1', s) for s in segs]
         meth = segs[-1]
         if len(segs) >= 2:
             head = segs[-2]
